@@ -11,7 +11,7 @@ import (
 )
 
 func init() {
-	register("C14", c14Chunk, func(e *Env) { serveLoop(e, "C14") }, c14SkipErrors, c14Bound)
+	register("C14", c14Chunk, func(e *Env) { serveLoop(e, "C14") }, c14SkipErrors, c14Bound, c14Prefetch, c14Drain)
 }
 
 const pkgUtils = Mod + "/pkg/common/utils"
@@ -242,4 +242,41 @@ func c14SkipErrors(e *Env) {
 		r.Unit("%s: %s — %d error-returning reader calls", rule, fname, n)
 		r.Floor(rule, n, 5, "error-returning reader calls in "+fname)
 	}
+}
+
+// C14.prefetch — the prefetched prefix is measured by its constant size.
+func c14Prefetch(e *Env) {
+	const rule = "C14.prefetch"
+	w, r := e.W, e.R
+	r.Explainf("C14.prefetch: `offset` counts body bytes consumed from the start of the body and the prefetched prefix occupies [0, Size()). Every method the body stream calls on its prefetchedBytes reader is Size (the immutable length) or Read; Len() — which shrinks as the handler reads — or Seek would make the comparisons with offset/contentLength in Read and in the drain disagree (sibling agreement between the two).")
+	field := w.Field("pkg/protocol/http1/ext", "bodyStream", "prefetchedBytes")
+	if field == nil {
+		r.Anchor(rule, "ext.bodyStream.prefetchedBytes")
+		return
+	}
+	allowed := map[string]bool{"Size": true, "Read": true}
+	n := 0
+	for _, fi := range declaredNonTest(w) {
+		if fi.Pkg.PkgPath != pkgExt {
+			continue
+		}
+		info := fi.Pkg.TypesInfo
+		fname := w.FuncName(fi.Obj)
+		k := 0
+		ast.Inspect(fi.Decl.Body, func(nd ast.Node) bool {
+			call, ok := nd.(*ast.CallExpr)
+			if !ok {
+				return true
+			}
+			se, ok := call.Fun.(*ast.SelectorExpr)
+			if !ok || usedVar(info, se.X) != field {
+				return true
+			}
+			n++
+			k++
+			r.Check(allowed[se.Sel.Name], rule, fmt.Sprintf("%s:prefetched.%s#%d", fname, se.Sel.Name, k), w.Pos(call.Pos()), "prefetched prefix is measured with Size() (or read with Read)", "`"+types.ExprString(call)+"`: "+se.Sel.Name+"() depends on how much the handler already read; the drain then skips the wrong number of bytes and eats the start of the next request")
+			return true
+		})
+	}
+	r.Floor(rule, n, 3, "calls on bodyStream.prefetchedBytes")
 }
